@@ -12,6 +12,7 @@ from ..report import Run, Finding, rel
 from ..common import lib_module, configs_for, need_fn, with_helpers_inlined
 from ..build import AnalysisBroken
 from ..core import World
+from ..lin import Lin
 
 PROP = "C06"
 ENUM = "varintAdaptiveEncodingType"
@@ -354,6 +355,42 @@ def analyse(mod, run, label):
         run.check(okm, "A6-pfor-marker-not-a-storable-offset", {"measured": repr(pfi.lin(val)), "largest_offset": repr(largest)},
                   Finding("A6-pfor-marker-collides-with-an-offset", pf.name, "exceptionMarker", "width",
                           "the offset width is measured for %r while normal values have offsets up to %r: when that offset is 2^(8*width)-1 it equals the exception marker and the value is decoded as an exception slot (lossy whenever PFOR is selected)" % (pfi.lin(val), largest), loc=loc(site)))
+    # ---- A8: isSorted is the verdict of a scan over every adjacent pair ----
+    # (A3 sends only sorted arrays to the set-only BITMAP codec; that is worth what the sortedness scan is worth: a loop that compares
+    #  values[i + a] with values[i + a + 1] must start at pair (0, 1) and end at pair (count - 2, count - 1))
+    cs8 = need_fn(mod, "varintAdaptiveCheckSorted"); fi8 = w.fi(cs8).prepare(); n8 = 0
+    vk8 = cs8.param_index("values"); ck8 = cs8.param_index("count")
+    if vk8 is None or ck8 is None: raise AnalysisBroken("A8: parameters of varintAdaptiveCheckSorted not found")
+    for h8, body8 in cs8.loops().items():
+        hb = cs8.bmap[h8]; t8 = hb.term
+        if t8.op != "br" or len(t8.ops) != 3 or t8.ops[0]["k"] != "inst": continue
+        ci8 = cs8.imap[t8.ops[0]["v"]]
+        if ci8.op != "icmp" or ci8["pred"] not in ("ult", "slt", "ne") or t8.ops[2]["v"] not in body8: continue
+        ph8 = strip(cs8, ci8.ops[0])
+        if ph8["k"] != "inst" or cs8.imap[ph8["v"]].op != "phi" or cs8.imap[ph8["v"]].block.id != h8: continue
+        phi8 = cs8.imap[ph8["v"]]
+        ins8 = [c_ for c_ in phi8["incoming"] if c_["b"] not in body8]; back8 = [c_ for c_ in phi8["incoming"] if c_["b"] in body8]
+        if len(ins8) != 1 or len(back8) != 1: continue
+        if fi8.lin(back8[0]["v"]) - fi8.lin(ph8) != Lin.const(1): continue
+        I8 = fi8.lin(ins8[0]["v"]); N8 = fi8.lin(ci8.ops[1]); iL = fi8.lin(ph8)
+        offs8 = set()
+        for ld in cs8.insts():
+            if ld.op != "load" or ld.block.id not in body8: continue
+            root, off = fi8.ptr(ld.ops[0])
+            if root != ("arg", vk8): continue
+            d8 = off - iL.scale(8)
+            if d8.is_const() and d8.c % 8 == 0: offs8.add(d8.c // 8)
+        if len(offs8) < 2: continue
+        n8 += 1
+        cmin, cmax = min(offs8), max(offs8)
+        cnt = fi8.lin({"k": "arg", "v": ck8, "t": "i64"})
+        first_ok = I8.is_const() and I8.c + cmin == 0
+        last_ok = (N8 + cmax - cnt) == Lin()
+        run.check(cmax - cmin == 1 and first_ok and last_ok, "A8-sortedness-scan-covers-every-pair", {"first_index": repr(I8), "bound": repr(N8), "element_offsets": sorted(offs8)},
+                  Finding("A8-sortedness-scan-incomplete", cs8.name, "isSorted", "loop",
+                          "the loop at %s compares values[i%+d] with values[i%+d] for i from %r while i < %r: it does not cover every adjacent pair of the %r values (first pair 0/1, last pair count-2/count-1), so an array with a descent in an uncovered pair is reported sorted and can be sent to the set-only BITMAP codec" % (
+                              loc(ci8), cmin, cmax, I8, N8, cnt), loc=loc(ci8)))
+    if n8 < 1: raise AnalysisBroken("A8: no adjacent-pair scan found in varintAdaptiveCheckSorted")
     # ---- A7: the dictionary codec's index width is measured for the same quantity on the writing and on both reading sides ----
     # (width of size - 1 everywhere today; a reader that measures size itself disagrees exactly when size is 256 or 65536 ...)
     offs = {}
